@@ -2,7 +2,7 @@
 (* Exhaustive TLC run: all schedules of public calls, coordinator steps and worker steps within the bounds. *)
 EXTENDS Team, TLC
 CONSTANTS MaxT, MaxG, MaxS, MaxL, MaxQ, Depth
-Init == \E L \in 0..2 : InitWith([limit |-> L])
+Init == \E L \in 0..2 : InitWith([limit |-> L, inline |-> FALSE])
 Spec == Init /\ [][Next]_vars
 Bound == /\ nT <= MaxT /\ cnt.g <= MaxG /\ cnt.s <= MaxS /\ cnt.l <= MaxL /\ cnt.q <= MaxQ
          /\ TLCGet("level") <= Depth
